@@ -230,8 +230,19 @@ class C20:
                 m = rng.choice(rng.choice(pool))
                 m = dict(m, center=[m['center'][0] + rfloat(rng, -1, 1, 3),
                                     m['center'][1], m['center'][2]])
-                b.emit('spheres_add', {'sc': h, 'member': {
-                    'op': 'sphere', 'args': m}}, tags={'k': 'add'})
+                rr_ = max(m['r']) if isinstance(m['r'], list) else m['r']
+                if rng.random() < 0.25:
+                    # a non-sphere: must be refused and leave the collection
+                    # as it was
+                    b.emit('spheres_add', {'sc': h, 'member': {
+                        'op': 'ellipsoid', 'args': {
+                            'n': 1.5, 'r': [rr_, rr_ * 1.5, rr_ * 0.7],
+                            'center': m['center']}}},
+                        tags={'k': 'add-nonsphere', 'reject': True,
+                              'unchanged': 'sc'})
+                else:
+                    b.emit('spheres_add', {'sc': h, 'member': {
+                        'op': 'sphere', 'args': m}}, tags={'k': 'add'})
             elif c < 0.68 and b.count('sc'):
                 # overlaps of a collection that may have been extended by
                 # Spheres.add since it was built
@@ -320,6 +331,15 @@ class C20:
                         '%s %r was not rejected with InvalidScatterer (%s %s)'
                         % (op, ev['args'], rec['outcome'], rec.get('exc')),
                         sig='C20.reject:' + op))
+                elif tags.get('unchanged'):
+                    ref = (rec.get('rargs') or {}).get(
+                        tags['unchanged'], {}).get('ref')
+                    if ref in [tuple(x) if isinstance(x, list) else x
+                               for x in rec.get('mutated', [])]:
+                        ex.add(violation(
+                            'C20.reject', ev['id'],
+                            'a refused %s nevertheless changed the collection'
+                            % op, sig='C20.reject:%s:changed' % op))
                 continue
             if op == 'spheres' and tags.get('overlapwarn'):
                 if rec['outcome'] != 'ok':
